@@ -67,6 +67,9 @@ type Tbl struct {
 	FKs          []*FK
 	WithoutRowID bool
 	Strict       bool
+	// LowerKW: this table's DDL spells its keywords in lower case (a database written by hand or by
+	// another tool). Only the foreign-DDL start databases use it.
+	LowerKW bool
 }
 
 // Sch is a schema.
@@ -144,58 +147,65 @@ func qs(ss []string) string {
 // DDL renders the table with the simulator's own, Atlas-independent SQL generator:
 // the reference database is created from it.
 func (t *Tbl) DDL() []string {
+	// k spells a keyword the way this table's author does (LowerKW: lower case).
+	k := func(s string) string {
+		if t.LowerKW {
+			return strings.ToLower(s)
+		}
+		return s
+	}
 	var defs []string
 	for _, c := range t.Cols {
 		d := q(c.Name) + " " + c.Type
 		if t.AutoInc && len(t.PK) == 1 && t.PK[0] == c.Name {
-			d += " NOT NULL PRIMARY KEY AUTOINCREMENT"
+			d += k(" NOT NULL PRIMARY KEY AUTOINCREMENT")
 			defs = append(defs, d)
 			continue
 		}
 		if !c.Null {
-			d += " NOT NULL"
+			d += k(" NOT NULL")
 		} else {
-			d += " NULL"
+			d += k(" NULL")
 		}
 		if c.Def != "" {
 			if c.DefExpr {
-				d += " DEFAULT (" + c.Def + ")"
+				d += k(" DEFAULT (") + c.Def + ")"
 			} else {
-				d += " DEFAULT " + c.Def
+				d += k(" DEFAULT ") + c.Def
 			}
 		}
 		if c.Gen != "" {
-			kind := "VIRTUAL"
+			kind := k("VIRTUAL")
 			if c.GenStored {
-				kind = "STORED"
+				kind = k("STORED")
 			}
-			d += " AS (" + c.Gen + ") " + kind
+			d += k(" AS (") + c.Gen + ") " + kind
 		}
 		defs = append(defs, d)
 	}
 	if len(t.PK) > 0 && !t.AutoInc {
-		defs = append(defs, "PRIMARY KEY ("+qs(t.PK)+")")
+		defs = append(defs, k("PRIMARY KEY (")+qs(t.PK)+")")
 	}
 	for _, f := range t.FKs {
 		d := ""
 		if f.Name != "" {
-			d = "CONSTRAINT " + q(f.Name) + " "
+			d = k("CONSTRAINT ") + q(f.Name) + " "
 		}
-		d += "FOREIGN KEY (" + qs(f.Cols) + ") REFERENCES " + q(f.RefTable) + " (" + qs(f.RefCols) + ")"
+		d += k("FOREIGN KEY (") + qs(f.Cols) + k(") REFERENCES ") + q(f.RefTable) + " (" + qs(f.RefCols) + ")"
 		if f.OnUpdate != "" {
-			d += " ON UPDATE " + f.OnUpdate
+			d += k(" ON UPDATE ") + f.OnUpdate
 		}
 		if f.OnDelete != "" {
-			d += " ON DELETE " + f.OnDelete
+			d += k(" ON DELETE ") + f.OnDelete
 		}
 		defs = append(defs, d)
 	}
 	for _, c := range t.Chk {
 		d := ""
 		if c.Name != "" {
-			d = "CONSTRAINT " + q(c.Name) + " "
+			d = k("CONSTRAINT ") + q(c.Name) + " "
 		}
-		defs = append(defs, d+"CHECK ("+c.Expr+")")
+		defs = append(defs, d+k("CHECK (")+c.Expr+")")
 	}
 	for _, i := range t.Idx {
 		if i.Inline {
@@ -203,16 +213,16 @@ func (t *Tbl) DDL() []string {
 			for _, p := range i.Parts {
 				cols = append(cols, p.Col)
 			}
-			defs = append(defs, "UNIQUE ("+qs(cols)+")")
+			defs = append(defs, k("UNIQUE (")+qs(cols)+")")
 		}
 	}
-	stmt := "CREATE TABLE " + q(t.Name) + " (\n  " + strings.Join(defs, ",\n  ") + "\n)"
+	stmt := k("CREATE TABLE ") + q(t.Name) + " (\n  " + strings.Join(defs, ",\n  ") + "\n)"
 	var opts []string
 	if t.WithoutRowID {
-		opts = append(opts, "WITHOUT ROWID")
+		opts = append(opts, k("WITHOUT ROWID"))
 	}
 	if t.Strict {
-		opts = append(opts, "STRICT")
+		opts = append(opts, k("STRICT"))
 	}
 	if len(opts) > 0 {
 		stmt += " " + strings.Join(opts, ", ")
@@ -229,17 +239,17 @@ func (t *Tbl) DDL() []string {
 				s = "(" + p.Expr + ")"
 			}
 			if p.Desc {
-				s += " DESC"
+				s += k(" DESC")
 			}
 			parts = append(parts, s)
 		}
 		u := ""
 		if i.Unique {
-			u = "UNIQUE "
+			u = k("UNIQUE ")
 		}
-		s := "CREATE " + u + "INDEX " + q(i.Name) + " ON " + q(t.Name) + " (" + strings.Join(parts, ", ") + ")"
+		s := k("CREATE ") + u + k("INDEX ") + q(i.Name) + k(" ON ") + q(t.Name) + " (" + strings.Join(parts, ", ") + ")"
 		if i.Where != "" {
-			s += " WHERE " + i.Where
+			s += k(" WHERE ") + i.Where
 		}
 		out = append(out, s)
 	}
